@@ -359,6 +359,11 @@ func (maw *MatrixAdjustmentWith) UnmarshalOrdered(o any) error {
 	}
 
 	switch src := o.(type) {
+	case nil:
+		// No dimensions. An adjustment without `with` is marshalled to JSON
+		// as `"with": null`, so this must be accepted in order to read back
+		// our own output.
+
 	case bool, int, string:
 		// A single scalar.
 		// (This is how you can do adjustments on a single anonymous dimension.)
@@ -375,7 +380,7 @@ func (maw *MatrixAdjustmentWith) UnmarshalOrdered(o any) error {
 	case *ordered.MapSA:
 		// A map of dimension key -> dimension value. (Tuple of dimension value
 		// selections.)
-		return src.Range(func(k string, v any) error {
+		err := src.Range(func(k string, v any) error {
 			switch vt := v.(type) {
 			case bool, int, string:
 				(*maw)[k] = fmt.Sprint(vt)
@@ -385,9 +390,20 @@ func (maw *MatrixAdjustmentWith) UnmarshalOrdered(o any) error {
 			}
 			return nil
 		})
+		if err != nil {
+			return err
+		}
 
 	default:
 		return fmt.Errorf("unsupported src type for MatrixAdjustmentsWith: %T", o)
+	}
+
+	// A `with` that names no dimension is written as `"with": null` in JSON
+	// and as `with: {}` in YAML, whether it was nil or empty. Settle on nil,
+	// so that an adjustment (and hence the signature of its step) is the same
+	// after it is read back.
+	if len(*maw) == 0 {
+		*maw = nil
 	}
 	return nil
 }
